@@ -502,7 +502,11 @@ def expected_card(tok):
 def symbol_table_check(ctx, rule, key, oracle_map, enum_adt, enum_map):
     rep, pdb = ctx.rep, ctx.pdb
     ch = atom("ch", "char")
-    dag = ctx.summ(key, [("v", ch)]).ret
+    sm_ = ctx.summ(key, [("v", ch)])
+    dag = sm_.ret
+    # total over every scalar value (a panicking symbol lookup makes every parser above it panic)
+    from .cards import total_over_scalar
+    total_over_scalar(ctx, rule + ".no-panic", sm_, "ch", "char", [0, 0x20, 0x41, 0x7F, 0x80, 0x2660, 0xD7FF, 0xE000, 0xFFFD, 0x10FFFF])
     cells, nconst = cell_table(pdb, dag, "ch", "char")
     rep.evals(2 * len(cells))
     inv = {v: k for k, v in enum_map.items() if v is not None}
@@ -556,12 +560,32 @@ def check_C12(ctx):
         other = set()
         asserted = {id(o.cond) for o in s_.obligations if o.cond[0] != "c"}
         dag_a = substitute(dag, lambda nd: TRUE if id(nd) in asserted else None) if asserted else dag
+        kg = "parse::get_rank_and_suit"
+        g_sm = ctx.summ(kg, [("v", atom("text", "str"))])
+        # the strings the fold uses must visit every cell the code cuts: every character the token's characters are
+        # compared with (in the parser, in get_rank_and_suit, in their panic sites) joins the alphabet with its neighbours
+        extra = set()
+        for root in [dag, g_sm.ret] + [c for o in list(s_.obligations) + list(g_sm.obligations) for c in (o.cond,) + tuple(o.pc)]:
+            for x in walk(root):
+                if x[0] == "bin" and x[1] in ("Eq", "Ne", "Lt", "Le", "Gt", "Ge"):
+                    for l_, r_ in ((x[2], x[3]), (x[3], x[2])):
+                        if r_[0] == "c" and isinstance(r_[1], int) and any(y[0] == "call" and y[1] in ("char_at", "byte_at") for y in walk(l_)):
+                            for d_ in ((-1, 0, 1) if x[1] in ("Lt", "Le", "Gt", "Ge") else (0,)):
+                                v_ = r_[1] + d_
+                                if 0 <= v_ < 0x110000 and not (0xD800 <= v_ <= 0xDFFF):
+                                    extra.add(chr(v_))
+        alphabet_t = sorted(set(alphabet) | extra) if len(extra) <= 150 else None
+        if alphabet_t is None:
+            rep.uncertified("C12.token", "the token parser compares characters with %d different constants; too many cells to enumerate" % len(extra), pdb.where(key))
+            return
         for x in walk(dag_a):
             if x[0] == "call":
                 if x[1] in ("has_char", "char_at") and x[2][0][0] != "call":
                     positions.add(cval(x[2][1]))
-                elif x[1] in ("has_char", "char_at", "has_byte", "byte_at", "str_slice", "is_char_boundary_range"):
-                    pass  # reads through byte offsets / sub-slices: decided by the fold and the panic-site check below
+                elif x[1] in ("has_byte", "byte_at"):
+                    other.add(x[1] + " (reads the token through byte offsets)")
+                elif x[1] in ("has_char", "char_at", "str_slice", "is_char_boundary_range"):
+                    pass  # reads through sub-slices: decided by the fold and the panic-site check below
                 elif x[1].startswith(("has_", "token", "ascii_", "str_", "char_", "byte_")):
                     other.add(x[1])
         len_in_sites = False
@@ -573,7 +597,7 @@ def check_C12(ctx):
                     other.add(x[1])
         rep.ob("C12.token-reads", "positions", positions <= {0, 1}, "from_index reads character positions %s (the tail must not matter)" % sorted(positions, key=str), pdb.where(key))
         rep.ob("C12.token-reads", "operations", not other, "from_index uses text operations other than reading characters in order: %s" % sorted(other), pdb.where(key))
-        strs = [""] + [a for a in alphabet] + [a + b for a in alphabet for b in alphabet] + [a + b + "zz♠" for a in "Ak9x" for b in "S♥dx"]
+        strs = [""] + [a for a in alphabet_t] + [a + b for a in alphabet_t for b in alphabet_t] + [a + b + "zz♠" for a in "Ak9x" for b in "S♥dx"] + [a + b + c for a in "1Ak" for b in "0S♠" for c in "S♠d0x"]
         bad = None
         nb = 0
         for t in strs:
@@ -613,8 +637,7 @@ def check_C12(ctx):
             rep.ob("C12.total", "%s %s" % (short(fn), kind), ok, "panic site (%s) in %s is reachable for some token" % (kind, short(fn)), "%s line %s" % (pdb.where(fn), line))
         rep.note("C12 token path panic sites: %d" % len(sites))
         # get_rank_and_suit agrees
-        kg = "parse::get_rank_and_suit"
-        g = ctx.summ(kg, [("v", atom("text", "str"))]).ret
+        g = g_sm.ret
         nb = 0
         for t in strs:
             env = {"text": C(t, "str"), "$str": StrModel.handler}
@@ -663,8 +686,34 @@ def check_C12(ctx):
                         nb += 1
                         bad = bad or t
                 rep.ob("C12.hand-parser", short(path), nb == 0, "TryFrom<&str> for %s is wrong on %d of %d token layouts, e.g. %r" % (short(path), nb, len(cases), bad), pdb.where(key))
+                # what the layouts cannot show: the result and the panic sites may depend on the text only through the
+                # tokens being there; the parsed cards are payload (never compared or computed with)
+                kfi, _sty = ctx.method("u32", "from_index", PC)
+                so_ = ctx.summ(key, [("v", atom("text", "str"))], opaque={kfi})
+                tcalls = {}
+                for root in [so_.ret] + [c for o in so_.obligations for c in (o.cond,) + tuple(o.pc)]:
+                    for x in walk(root):
+                        if x[0] == "call" and x[1] == "fn:" + kfi and id(x) not in tcalls:
+                            tcalls[id(x)] = atom("$t%d" % len(tcalls), "u32")
+                from .rank import value_use
+                roots_ = [substitute(r_, lambda nd: tcalls.get(id(nd))) for r_ in [so_.ret] + [c for o in so_.obligations if not (o.cond[0] == "c" and o.cond[1]) for c in (o.cond,) + tuple(o.pc)]]
+                _c, why_ = value_use(roots_, set(), {a_[1] for a_ in tcalls.values()})
+                rep.ob("C12.hand-parser.payload", short(path), why_ is None, "TryFrom<&str> for %s looks at the parsed cards (%s): its result or a panic site depends on more than the tokens being there" % (short(path), why_), pdb.where(key))
+                # ... and its panic sites hold on every layout
                 for o in s_.obligations:
-                    pass
+                    if o.cond[0] == "c" and o.cond[1]:
+                        continue
+                    okall = True
+                    for t in cases:
+                        env = {"text": C(t, "str"), "$str": StrModel.handler}
+                        try:
+                            if all(cval(evaluate(pdb, c, env)) for c in o.pc) and not cval(evaluate(pdb, o.cond, env)):
+                                okall = False
+                                break
+                        except (Uncertified, IndexError):
+                            okall = False
+                            break
+                    rep.ob("C12.total", "%s %s L%s" % (short(o.fn), o.kind, o.line), okall, "panic site (%s) in %s is reachable for some token layout" % (o.kind, short(o.fn)), "%s line %s" % (pdb.where(o.fn), o.line))
             ctx.guard("C12.hand-parser." + short(path), one)
             cnt += 1
         def free():
